@@ -715,6 +715,73 @@ def c35(run):
         level_note="thorough tier is exhaustive; quick is boundary + random")
 
 
+@check("C03")
+def c03(run):
+    run.rec_leg("parse", ["parse"], spec="TV_Parse", cfg="TV_Parse.cfg",
+                verdict=["panic", "stmts-written", "spans", "layout-image", "unknown-event"])
+    return run.finish(
+        rule="generated statement lists (every opcode, alias and directive, labels on the statement line or on lines of their "
+             "own, several labels, with and without colons, numeric operands in every notation, strings with escapes and "
+             "non-ASCII text, externals; some programs with injected assembler faults), each rendered twice with independent "
+             "random surface syntax (keyword/register/hex-prefix case, spaces and tabs, comments incl. non-ASCII, blank lines, "
+             "LF/CRLF, final newline or not); for every rendering the real parse_ast must return exactly the written "
+             "statements, with nucleus and label spans exactly where the renderer put that text, and exactly what "
+             "Grammar!ParseProgram - the specification's own tokenizer and statement grammar run by TLC on the source bytes - "
+             "reads in it; the two renderings must assemble to the same image, labels and result",
+        level_note="agreement with Grammar!ParseProgram is reported as drift when the parser still returns what was written")
+
+
+@check("C05")
+def c05(run):
+    if run.tier == "thorough":
+        run.exhaustive = True
+        lo = -70000
+        while lo <= 140000:
+            hi = min(lo + 14999, 140000)
+            run.rec_leg("num_%d" % lo, ["num", "lo=%d" % lo, "hi=%d" % hi, "fields=7"], spec="TV_Parse", cfg="TV_Parse.cfg",
+                        verdict=["panic", "num-token", "reg-token", "num-field", "reg-field", "unknown-event"], workers=16)
+            lo = hi + 1
+    run.rec_leg("num", ["num"], spec="TV_Parse", cfg="TV_Parse.cfg",
+                verdict=["panic", "num-token", "reg-token", "num-field", "reg-field", "unknown-event"])
+    return run.finish(
+        rule="every spelling (n, #n, xH, XH, leading zeros; -n, #-n, x-H, X-H with leading zeros) of integers around every power of "
+             "two up to 2^17, around the 16-bit limits, 70000, 100000, 140000 and random ones (thorough: every integer in "
+             "[-70000, 140000]), huge values, and register spellings R0..R256 with leading zeros; each lexed by the real lexer "
+             "as a bare token and parsed as the operand of imm5, offset6, PCoffset9 (LD, BR, NOP), PCoffset11, trapvect8, .orig, "
+             ".blkw, .fill and a register position; TLC computes the written value (Lexer!Literal) and requires acceptance "
+             "exactly when the value is in 0..65535 / -32768..32767 and fits the field (FitsS / FitsU, .blkw non-zero, .fill "
+             "either), and the denoted value",
+        level_note="spellings outside the literal grammar (1_000, #x10, --5, Unicode digits) are conformance only (drift)")
+
+
+@check("C36")
+def c36(run):
+    run.rec_leg("print", ["print"], spec="TV_Parse", cfg="TV_Parse.cfg", verdict=["panic", "reparse", "unknown-event"])
+    return run.finish(
+        rule="every statement obtained by parsing generated programs (all opcodes, aliases, directives, several labels, "
+             "label and numeric operands at the field limits, NOP with and without operand, .fill of negative values, strings "
+             "with quotes, backslashes, tab, newline, CR, NUL, apostrophes) is printed by the real Display and the text parsed "
+             "again by the real parser: exactly one statement, equal in labels, instruction or directive and operands; "
+             "statements whose string holds other characters are skipped as the property says; TLC additionally reads the "
+             "printed text with Grammar!ParseProgram (conformance)",
+        level_note="equality is on the projection of Stmt without spans")
+
+
+@check("C04")
+def c04(run):
+    run.rec_leg("garbage", ["garbage"], spec="TV_Parse", cfg="TV_Parse.cfg",
+                verdict=["panic", "errspan", "string-literal", "unknown-event"], workers=16)
+    return run.finish(
+        rule="(1) every text `.stringz \"` + s for all strings s of up to 4 (thorough: 6) symbols over {quote, backslash, n, a, "
+             "e-acute, LF, CR, space}: TLC predicts the exact outcome with Lexer!ScanStr / Grammar (the string value, or an "
+             "unclosed-literal error whose span runs from the quote to the end of the line); (2) targeted edges (70 000-character "
+             "literals and identifiers, 5 000-digit numbers, backslash at end of line/input, non-ASCII after a backslash, in "
+             "identifiers and as digits, stray symbols, lone CR, NUL, BOM); (3) random Unicode strings; (4) generated programs "
+             "with byte-level mutations; for every input: no panic, and an error carries exactly one span with "
+             "0 <= start <= end <= length of the input",
+        level_note="outside the string-literal family only the outcome class is predicted")
+
+
 @check("C25")
 def c25(run):
     run.mc_leg("mc_sourceinfo", "MC_SourceInfo", "MC_SourceInfo6.cfg" if run.tier == "thorough" else "MC_SourceInfo.cfg", workers=16)
@@ -735,7 +802,7 @@ ASM_CONF = ["conf-accept", "conf-err", "conf-blocks", "conf-sym"]
 
 @check("C01")
 def c01(run):
-    run.rec_leg("asm", ["asm", "faults=25"], verdict=["panic", "image", "labels", "extflag", "unknown-event"])
+    run.rec_leg("asm", ["asm", "faults=25"], verdict=["panic", "image", "labels", "extflag", "wf-rejected", "unknown-event"])
     return run.finish(
         rule="generated programs (every opcode and alias, operands at and inside field limits, label operands forward and "
              "backward incl. offsets exactly at the 9- and 11-bit limits, .fill/.stringz/.blkw, 1-4 blocks placed from x0000 "
